@@ -198,6 +198,15 @@ fn only_tuple_whitespace(a: &str, b: &str) -> bool {
     broken_tuple && norm(a) == norm(b)
 }
 
+/// `a` (second pass) and `b` (first pass) differ in blank lines only and `b` has an empty line
+/// directly above a line that consists of a closing brace
+fn blank_line_before_closing_brace_only(a: &str, b: &str) -> bool {
+    let norm = |s: &str| -> Vec<String> { s.lines().map(|l| l.trim_end().to_string()).filter(|l| !l.is_empty()).collect() };
+    let lines: Vec<&str> = b.lines().collect();
+    let has = lines.windows(2).any(|w| w[0].trim().is_empty() && (w[1].trim() == "}" || w[1].trim() == "},"));
+    has && norm(a) == norm(b)
+}
+
 fn glu_files() -> Vec<String> {
     let mut out = vec![];
     for dir in ["/repo/std", "/repo/tests/pass", "/repo/examples", "/repo/std/json", "/repo/std/effect", "/repo/std/regex", "/repo/std/http", "/repo/repl/src", "/repo/tests/pass/json"] {
@@ -508,9 +517,19 @@ impl Property for C10 {
                     again.map(|s| s.chars().take(3000).collect::<String>()).unwrap_or_else(|| other.to_string()),
                     show_out()
                 );
-                let feats = if only_blank_after_paren { vec!["second_pass_adds_blank_line_after_open_paren".to_string()] } else { vec![] };
+                // a record whose last field is followed by a blank line keeps that blank line in the
+                // first pass and loses it in the second (KF-C10-07): blank-line-only difference and
+                // the first output has an empty line directly above a closing brace
+                let blank_before_brace = again.map(|a| blank_line_before_closing_brace_only(a, out)).unwrap_or(false);
+                let feats = if only_blank_after_paren {
+                    vec!["second_pass_adds_blank_line_after_open_paren".to_string()]
+                } else if blank_before_brace {
+                    vec!["second_pass_removes_blank_line_before_closing_brace".to_string()]
+                } else {
+                    vec![]
+                };
                 match kf.matches("C10", "not_equal", "not idempotent", &feats) {
-                    Some(id) if only_blank_after_paren => known = Some(id),
+                    Some(id) if only_blank_after_paren || blank_before_brace => known = Some(id),
                     _ => {
                         j.verdict = viol(what);
                         return j;
